@@ -45,3 +45,31 @@ PROPS["C14"] = dict(
                 quick=dict(workers=16, checks=6000, steps=40, watchdog_s=900),
                 thorough=dict(workers=16, checks=400000, steps=50, watchdog_s=5400))],
 )
+
+PROPS["C15"] = dict(
+    level="exploration",
+    engine="coop+simpool",
+    technique="deterministic simulation: real goroutines under a seeded cooperative scheduler that the race detector cannot see, sync.Pool replaced by a seeded model; self-differential oracle per client; rapid shrinking of scripts and schedules",
+    design_ref="DESIGN.md 4.2, 4.3, 5 (C15)",
+    level_text=("Seeded search over client scripts, interleavings (scheduling points before every API call and inside every pool Get/Put), pool behaviours and "
+                "options. Every observation of every client must equal the pristine-decoder observation for that client's own input, no client may panic, and "
+                "the race detector - which sees only the library's own synchronisation because all scheduler hand-offs are hidden from it - must stay silent. "
+                "A data race is therefore reported deterministically under a serial schedule, without needing physical overlap. Sampling, not proof."),
+    level_note=("Trusted: the scheduler's hiding of its own synchronisation (validated by selftest mutants), the pool model incl. the Put->Get happens-before "
+                "edge it adds per object, the Go race detector. True parallel execution is replaced by serial schedules plus happens-before analysis."),
+    needs=[],
+    rule=("one execution = 2..N client goroutines sharing one lazyproto.Decoder, each with its own client-tagged inputs and a drawn script of "
+          "Decode/accessor/Nested/Range/Close, under a drawn schedule and pool behaviour; non-trivial = at least one context switch, at least one Get "
+          "served from the pool (object recycled between clients or iterations) and at least one judged observation; distinct = hash of configuration, "
+          "inputs, scripts and the schedule's decision sequence"),
+    real=["lazyproto/*.go", "csproto.Decoder underneath", "goroutines", "Go race detector (race-build tests)"],
+    model=["choice of which goroutine runs (seeded scheduler)", "sync.Pool -> seeded model (same as C14) with the per-object Put->Get happens-before edge of a real pool"],
+    assumptions=["a race between two accesses is found if both are executed in some explored run without a happens-before path created by the library itself",
+                 "interleavings are explored at the granularity of the yield points (API calls, pool operations)"],
+    tests=[dict(name="TestC15Coop", pkg="c15", race=True, params=dict(max_clients=6),
+                quick=dict(workers=16, checks=400, steps=30, watchdog_s=900),
+                thorough=dict(workers=16, checks=40000, steps=30, watchdog_s=7200, max_clients=12)),
+           dict(name="TestC15Coop", pkg="c15", race=False, mem_gb=8, params=dict(max_clients=6),
+                quick=dict(workers=8, checks=3000, steps=30, watchdog_s=900),
+                thorough=dict(workers=16, checks=300000, steps=30, watchdog_s=7200, max_clients=64))],
+)
